@@ -76,6 +76,11 @@ def focus_opts(focus: str, ch: Choices, known: dict, params: dict) -> dict:
         o["max_vars"] = 8
         o["max_extra"] = 5
         o["max_arity"] = 6
+    if focus == "C04" and not params.get("types") and ch.chance(1, 3, "c04.bias"):
+        # the constraints whose filtering walks pointer structures (Hall intervals, critical capacities): where a pass
+        # can fail to terminate inside one execution
+        o["types"] = ["gcc", "gcc", "alldifferent", "gcc", "count_eq", "lexicographic_leq"]
+        o["flavour_weights"] = [1, 0, 0]
     if focus in ("C01", "C02", "C03", "C08", "C17", "C04") and not params.get("types") and ch.chance(1, 4, "long"):
         o["max_vars"] = 8
         o["max_extra"] = 5
